@@ -164,7 +164,7 @@ int main(int argc, char **argv) {
             for (size_t k = 0; want && k < A.size(); k++) want = util::isScalable(A[k], Bl[k]);
             for (size_t k = 0; wantset && k < A.size(); k++) wantset = A[k].empty() == Bl[k].empty();
             bool got = util::isScalable(A, Bl), gotset = util::isSetAtSamePos(A, Bl);
-            vf::count("pairs_checked", 2);
+            vf::count("law_checks", 2);
             vf::distinct("outcomes", std::string("lists|") + std::to_string(A.size()) + std::to_string(Bl.size()) + (got ? "|scalable" : "|not") + (gotset ? "|same" : "|other"));
             if (got != want) {
                 size_t bad = A.size(); for (size_t k = 0; k < A.size() && k < Bl.size(); k++) if (!util::isScalable(A[k], Bl[k])) { bad = k; break; }
